@@ -19,6 +19,7 @@ package main
 
 import (
 	"fmt"
+	"sort"
 	"sync"
 	"time"
 
@@ -45,6 +46,30 @@ func recordL5(r *hxlib.Run, c hxconn.L5Case, res hxconn.L5Result) {
 	for _, f := range res.Failures {
 		fc := f.Case
 		r.Fail(f.Key, f.What, replay5{Legs5: &fc})
+	}
+	emitStartup(r, res)
+}
+
+// emitStartup: every distinct observation of the startup leg (flags, accepted packets n, capacity, sent counter k right
+// after Close returned, packets p the peer read before end-of-stream) becomes an op line; the model driver explores ALL
+// interleavings of the start-up LTS (Model/ConnStart.lean: Go / pumps / Close at the level of wg.Add, `go`, wg.Done,
+// wg.Wait) and must find one that ends with exactly these numbers. Negative control: the same run with one packet
+// missing at Close's return must be rejected.
+func emitStartup(r *hxlib.Run, res hxconn.L5Result) {
+	keys := make([]string, 0, len(res.Startup))
+	for k := range res.Startup {
+		keys = append(keys, k)
+	}
+	sort.Strings(keys)
+	for _, k := range keys {
+		r.Op("startup "+k, "accept")
+		r.CountN("legs5:startup:model-explained", res.Startup[k])
+		var w, rd, n, qcap, sent, peer int
+		if c, _ := fmt.Sscanf(k, "w=%d r=%d n=%d cap=%d k=%d p=%d", &w, &rd, &n, &qcap, &sent, &peer); c == 6 && w == 1 && n >= 1 && sent == n {
+			r.Op(fmt.Sprintf("startup w=%d r=%d n=%d cap=%d k=%d p=%d mutant=lost-at-close", w, rd, n, qcap, n-1, n-1), "reject")
+			r.Op(fmt.Sprintf("startup w=%d r=%d n=%d cap=%d k=%d p=%d mutant=late-flush", w, rd, n, qcap, n-1, n), "reject")
+			r.Count("mutant:startup")
+		}
 	}
 }
 
